@@ -10,7 +10,7 @@
  *
  *   mod <hex yang> [ctxopts]               new context + module; "0" or "E<rc>"
  *   parse t<k> <x|j> <parse opts> <val opts> <hex>   lyd_parse_data; VERDICT
- *   val t<k> <val opts> [m]                lyd_validate_all, with m: lyd_validate_module(first module loaded with mod); VERDICT
+ *   val t<k> <val opts> [m]                lyd_validate_all, with m: lyd_validate_module(LAST module loaded with mod); VERDICT
  *   dump t<k> <opts>                       as lyx (opts 1 = show LYD_NEW as n)
  *   newpath t<k> <opts> <hex path> <hex value|~>    lyd_new_path2; "0" or VERDICT
  *   freepath t<k> <hex path>               lyd_free_tree(lyd_find_path); "0" / "-"
@@ -274,7 +274,8 @@ run_cmd(char *cmd, struct sbuf *o)
             }
         }
         rc = lys_parse_mem(C, text, LYS_IN_YANG, &m);
-        if (!M) {
+        if (!rc && m) {
+            /* the module under test is the one loaded last (modules it imports are loaded before it) */
             M = m;
         }
         if (rc) {
